@@ -62,10 +62,16 @@ struct Cx<'a> {
     viol: Vec<Violation>,
     calls: u64,
     oks: u64,
+    /// enough panics reported for this scenario: the remaining inputs are skipped (a decoder
+    /// that panics on most inputs would otherwise make the scenario look like a hang)
+    stop: bool,
 }
 
 impl Cx<'_> {
     fn report(&mut self, target: &str, inputs: Vec<String>, msg: String) {
+        if self.viol.len() >= 5 {
+            self.stop = true;
+        }
         if self.viol.len() < 12 {
             let site = panic_site(&msg);
             let mut s = self.scn.clone();
@@ -80,6 +86,9 @@ impl Cx<'_> {
     }
 
     fn adc(&mut self, b: &[u8]) {
+        if self.stop {
+            return;
+        }
         self.calls += 2;
         let r = catch(|| {
             let mut ok = 0;
@@ -106,6 +115,9 @@ impl Cx<'_> {
         }
     }
     fn chunk(&mut self, b: &[u8]) {
+        if self.stop {
+            return;
+        }
         self.calls += 1;
         let r = catch(|| match Chunk::try_from(b) {
             Ok(c) => {
@@ -136,6 +148,9 @@ impl Cx<'_> {
         let _ = format!("{p}{p:?}");
     }
     fn pwb(&mut self, b: &[u8]) {
+        if self.stop {
+            return;
+        }
         self.calls += 2;
         let r = catch(|| {
             let mut ok = 0;
@@ -160,6 +175,9 @@ impl Cx<'_> {
         }
     }
     fn chunks(&mut self, datagrams: &[Vec<u8>]) {
+        if self.stop {
+            return;
+        }
         self.calls += 1;
         let r = catch(|| {
             let list: Vec<Chunk> = datagrams.iter().filter_map(|d| Chunk::try_from(&d[..]).ok()).collect();
@@ -185,6 +203,9 @@ impl Cx<'_> {
         }
     }
     fn trg(&mut self, b: &[u8]) {
+        if self.stop {
+            return;
+        }
         self.calls += 2;
         let r = catch(|| {
             let mut ok = 0;
@@ -213,6 +234,9 @@ impl Cx<'_> {
         }
     }
     fn cb(&mut self, b: &[u8]) {
+        if self.stop {
+            return;
+        }
         self.calls += 1;
         let r = catch(|| {
             let mut s: &[u8] = b;
@@ -231,6 +255,9 @@ impl Cx<'_> {
         }
     }
     fn name(&mut self, s: &str) {
+        if self.stop {
+            return;
+        }
         self.calls += 13;
         let r = catch(|| {
             let mut ok = 0u64;
@@ -499,7 +526,7 @@ impl Check for C01Check {
             panic!("C01 scenario of mode {} executed by a {} build", scn.mode, if have_checks { "relchk" } else { "release" });
         }
         stats.probe(&format!("mode:{}", scn.mode));
-        let mut cx = Cx { scn: &scn, stats, viol: vec![], calls: 0, oks: 0 };
+        let mut cx = Cx { scn: &scn, stats, viol: vec![], calls: 0, oks: 0, stop: false };
         let mut r = Rng::new(scn.seed);
         let mut log = H64::new();
         log.str(&scn.mode).str(&format!("{:?}", scn.family)).u64(scn.part);
